@@ -7,7 +7,6 @@ import (
 	"net"
 	"net/http"
 	"net/url"
-	"os"
 	"strconv"
 
 	"github.com/magisterquis/curlrevshell/lib/opshell"
@@ -19,8 +18,6 @@ import (
 //verif:stub net.JoinHostPort stubJoinHostPort
 //verif:stub os.ReadFile stubReadFile
 //verif:stub math/rand.Uint64 stubRandUint64
-//verif:stub os.Stat stubOsStat
-//verif:stub os.Lstat stubOsStat
 
 var (
 	parseFormFails bool
@@ -65,16 +62,6 @@ func stubReadFile(name string) ([]byte, error) {
 	}
 	return tmplData, nil
 }
-// stubOsStat: file metadata as the environment may present it: the template file exists (unless
-// removed) and - as after `mv`, `cp -p`, a restore, or an edit within one timestamp tick - its
-// size and modification time need not change when its content does.
-func stubOsStat(name string) (os.FileInfo, error) {
-	if tmplReadFails {
-		return nil, &stubErr{"no such file"}
-	}
-	return stubFI{}, nil
-}
-
 func stubRandUint64() uint64 { lastRand = nondetUint64(); return lastRand }
 
 type addrListener struct{ stubListener }
@@ -167,6 +154,7 @@ func HarnessC07Script() {
 		s.tmplf = "tmpl.file"
 		tmplData = nondetBytes(2, 0) // arbitrary template text: parsing/executing may fail
 		tmplReadFails = nondetBool()
+		tmplStatFails = tmplReadFails
 	}
 	tmplReads = 0
 	r := &http.Request{RemoteAddr: "c:1", Form: url.Values{"c2": []string{c2}}, Header: http.Header{}, URL: &url.URL{Path: "/c"}, TLS: &tls.ConnectionState{}}
@@ -213,6 +201,7 @@ func HarnessC07Reread() {
 	r := &http.Request{RemoteAddr: "c:1", Form: url.Values{"c2": []string{"h"}}, Header: http.Header{}, URL: &url.URL{Path: "/c"}, TLS: &tls.ConnectionState{}}
 	tmplReads = 0
 	tmplReadFails = false
+	tmplStatFails = false
 	tmplData = []byte("A{{.ID}}!")
 	w1 := &nullRW{h: http.Header{}}
 	s.scriptHandler(w1, r)
@@ -221,6 +210,7 @@ func HarnessC07Reread() {
 	w2 := &nullRW{h: http.Header{}}
 	s.scriptHandler(w2, r)
 	tmplReadFails = true
+	tmplStatFails = true
 	w3 := &nullRW{h: http.Header{}}
 	s.scriptHandler(w3, r)
 	verifAssert(tmplReads == 3, "C07.template-reread-for-every-request")
